@@ -22,7 +22,7 @@ from ..gen import c05_gen as Gn
 PID = "C05"
 COQ_HEADER = ("From Coq Require Import List NArith ZArith Bool.\nImport ListNotations.\n"
               "From SK Require Import lib.Tok lib.LGraph model.C03_Model model.C05_Model.\n")
-SHARD = 12
+SHARD = 6
 IMPL_TIMEOUT = 1500
 COQ_TIMEOUT = 1500
 STRATS = {"all": 0, "comp": 1, "bt": 2}
@@ -200,11 +200,16 @@ def prepare(case):
             cost["raw"] = max(cost["raw"], len(rec.raw))
             cost["glued"] = max(cost["glued"], sum(len(c[3]) if c[1] is None else len(c[1]) for c in rec.glue_calls))
             cost["host"] = max(cost["host"], rec.host.number_of_nodes())
+            np_, nh_ = rec.tpl.number_of_nodes(), rec.host.number_of_nodes()
+            # rough seconds of vm_compute for the three strategies of this writing (measured: 38-node pattern in a 38-node host
+            # 1.3 s per run, 4-node pattern in a 56-node host 0.3 s per run)
+            cost["est"] = cost.get("est", 0.0) + len(case["strategies"]) * (1.3 * np_ * nh_ * (np_ + 10) / 69000.0 + 0.3 * (nh_ / 56.0) ** 2)
     except Exception as e:
         case["pre"] = {"error": type(e).__name__ + ": " + str(e)[:120]}
         return case
     case["pre"] = {"vs": vs, "cost": cost}
-    if cost["raw"] > MAX_RAW or cost["glued"] > MAX_GLUED or cost["host"] > MAX_HOST:
+    cost["est"] = round(cost.get("est", 0.0), 2)
+    if cost["raw"] > MAX_RAW or cost["glued"] > MAX_GLUED or cost["host"] > MAX_HOST or cost["est"] > case.get("cap", 12.0):
         case["pre"]["big"] = True
     return case
 
@@ -464,9 +469,10 @@ def distribution(cases, obss):
 
 # ------------------------------------------------------------------ generators
 
-def _mk_case(pair, rng, k_sub, k_tpl):
+def _mk_case(pair, rng, k_sub, k_tpl, cap=12.0):
     rsmi, sub = pair["tpl"]["rsmi"], pair["sub"]
-    if not pair["tpl"].get("core", True) and len(Gn.map_numbers(rsmi)) > 16:
+    big_tpl = not pair["tpl"].get("core", True) and len(Gn.map_numbers(rsmi)) > 16
+    if big_tpl:
         k_sub, k_tpl = 1, min(k_tpl, 1)          # full ITS of a corpus reaction: 30-60 pattern nodes, keep the case affordable
     vs = [dict(v="base", sub=sub, rsmi=rsmi)]
     subs = Gn.substrate_variants(sub, rng, k_order=k_sub)
@@ -475,11 +481,12 @@ def _mk_case(pair, rng, k_sub, k_tpl):
         vs.append(dict(v="sub:" + kind, sub=s, rsmi=rsmi))
     for how, t in tpls:
         vs.append(dict(v="tpl:" + how, sub=sub, rsmi=t))
-    if subs and tpls:
+    if subs and tpls and not big_tpl:
         vs.append(dict(v="both", sub=rng.choice(subs)[1], rsmi=rng.choice(tpls)[1]))
     c = dict(pair)
     c["variants"] = vs
     c["strategies"] = ["all", "comp", "bt"]
+    c["cap"] = cap
     return c
 
 
@@ -490,16 +497,24 @@ def gen_cases(tier, rng):
     pairs_tbl = json.load(open(os.path.join(K.VERIF, "corpus", "C03_pairs.json")))["pairs"]
     pairs = list(Gn.hand_pairs())
     if tier == "quick":
-        pick = {"usp": rng.sample(idx["usp"], 10), "eco": rng.sample(idx["eco"], 14)}
-        nfor, k_sub, k_tpl = 2, 2, 2
+        pick = {"usp": rng.sample(idx["usp"], 8), "eco": rng.sample(idx["eco"], 10)}
+        nfor, k_sub, k_tpl, cap = 2, 2, 2, 14.0
     else:
         pick = {"usp": list(idx["usp"]), "eco": list(idx["eco"])}
-        nfor, k_sub, k_tpl = 6, 3, 3
+        nfor, k_sub, k_tpl, cap = 6, 3, 3, 60.0
     for name in ("usp", "eco"):
-        for i, mode in pick[name]:
+        for n_, (i, mode) in enumerate(pick[name]):
             inv = rng.random() < 0.5
-            for core, iv in ((True, inv), (True, not inv), (False, inv)) if tier == "quick" else ((True, False), (True, True), (False, False), (False, True)):
-                p = Gn.own_pair(name, i, core, iv, mode)
+            if tier == "quick":
+                combos = [(True, inv, mode), (True, not inv, mode)] + ([(False, inv, mode)] if n_ % 3 == 0 else [])
+                if mode == "E":
+                    combos.append((True, inv, "I"))      # explicit centre hydrogens kept in the pattern: the re-matching path
+            else:
+                combos = [(True, False, mode), (True, True, mode), (False, False, mode), (False, True, mode)]
+                if mode == "E":
+                    combos += [(True, False, "I"), (True, True, "I")]
+            for core, iv, md in combos:
+                p = Gn.own_pair(name, i, core, iv, md)
                 if p:
                     pairs.append(p)
             fp = [p for p in pairs_tbl if p[0] == name and p[1] == i]
@@ -507,5 +522,5 @@ def gen_cases(tier, rng):
                 q = Gn.foreign_pair(p)
                 if q:
                     pairs.append(q)
-    cases = [_mk_case(p, rng, k_sub, k_tpl) for p in pairs]
+    cases = [_mk_case(p, rng, k_sub, k_tpl, cap) for p in pairs]
     return prepare_all(cases)
